@@ -367,8 +367,13 @@ class FuncCtx:
                 return inner + op
             return op + inner
         if k in ("BinaryOperator", "CompoundAssignOperator"):
-            return "(%s %s %s)" % (self.canon(ch[0], depth, subst), n.get("opcode"),
-                                   self.canon(ch[1], depth, subst))
+            l_, r_ = self.canon(ch[0], depth, subst), self.canon(ch[1], depth, subst)
+            if n.get("opcode") == "-" and l_.startswith("&" + r_ + "[") and l_.endswith("]") and \
+                    l_.count("[") - l_.count("]") == 0 and "*" in (strip(ch[0], casts=True).get("type") or ""):
+                inner_ = l_[len(r_) + 2:-1]
+                if inner_.count("[") == inner_.count("]"):
+                    return inner_                      # &A[i] - A  ==  i
+            return "(%s %s %s)" % (l_, n.get("opcode"), r_)
         if k == "ArraySubscriptExpr":
             return "%s[%s]" % (self.canon(ch[0], depth, subst), self.canon(ch[1], depth, subst))
         if k == "ConditionalOperator":
